@@ -657,7 +657,10 @@ func (w *World) Park(kind, key string, grantable func() bool, onGrant func() any
 func (w *World) park(e *entry) any {
 	id := goid()
 	if id == w.rootID {
-		// The root runs only at quiescence: grant immediately or fail loudly.
+		// The root may be running concurrently with the task it released last (Step returns
+		// right after the hand-off): reach quiescence first, then grant immediately or fail
+		// loudly. Lock state is only ever touched at quiescence or under w.mu.
+		synctest.Wait()
 		if e.grantable != nil && !e.grantable() {
 			panic("vsim: root goroutine would block on " + e.kind + " " + e.resName())
 		}
@@ -895,7 +898,14 @@ func (w *World) grant(ready []*entry) {
 	w.mu.Unlock()
 	var v any
 	if e.onGrant != nil {
-		v = e.onGrant()
+		if e.lock != nil {
+			// lock bookkeeping: also under w.mu, like Unlock/RUnlock on the task side
+			w.mu.Lock()
+			v = e.onGrant()
+			w.mu.Unlock()
+		} else {
+			v = e.onGrant()
+		}
 	}
 	e.wake <- v
 }
